@@ -1,4 +1,5 @@
-// Package vatomic: sync/atomic on top of vsched (prototype).
+// Package vatomic: sync/atomic on top of vsched. Every operation is a scheduling point followed by
+// the real atomic instruction (so the race detector sees real atomics).
 package vatomic
 
 import (
@@ -15,6 +16,88 @@ func pt(kind string, p unsafe.Pointer, w bool) {
 	}
 }
 
+// ---- typed values
+
+type Bool struct{ v atomic.Bool }
+
+//go:norace
+func (x *Bool) Load() bool { pt("atomic.load", unsafe.Pointer(x), false); return x.v.Load() }
+
+//go:norace
+func (x *Bool) Store(v bool) { pt("atomic.store", unsafe.Pointer(x), true); x.v.Store(v) }
+
+//go:norace
+func (x *Bool) Swap(v bool) bool { pt("atomic.swap", unsafe.Pointer(x), true); return x.v.Swap(v) }
+
+//go:norace
+func (x *Bool) CompareAndSwap(o, n bool) bool {
+	pt("atomic.cas", unsafe.Pointer(x), true)
+	return x.v.CompareAndSwap(o, n)
+}
+
+type Int32 struct{ v atomic.Int32 }
+
+//go:norace
+func (x *Int32) Load() int32 { pt("atomic.load", unsafe.Pointer(x), false); return x.v.Load() }
+
+//go:norace
+func (x *Int32) Store(v int32) { pt("atomic.store", unsafe.Pointer(x), true); x.v.Store(v) }
+
+//go:norace
+func (x *Int32) Swap(v int32) int32 { pt("atomic.swap", unsafe.Pointer(x), true); return x.v.Swap(v) }
+
+//go:norace
+func (x *Int32) Add(d int32) int32 { pt("atomic.add", unsafe.Pointer(x), true); return x.v.Add(d) }
+
+//go:norace
+func (x *Int32) CompareAndSwap(o, n int32) bool {
+	pt("atomic.cas", unsafe.Pointer(x), true)
+	return x.v.CompareAndSwap(o, n)
+}
+
+type Int64 struct{ v atomic.Int64 }
+
+//go:norace
+func (x *Int64) Load() int64 { pt("atomic.load", unsafe.Pointer(x), false); return x.v.Load() }
+
+//go:norace
+func (x *Int64) Store(v int64) { pt("atomic.store", unsafe.Pointer(x), true); x.v.Store(v) }
+
+//go:norace
+func (x *Int64) Swap(v int64) int64 { pt("atomic.swap", unsafe.Pointer(x), true); return x.v.Swap(v) }
+
+//go:norace
+func (x *Int64) Add(d int64) int64 { pt("atomic.add", unsafe.Pointer(x), true); return x.v.Add(d) }
+
+//go:norace
+func (x *Int64) CompareAndSwap(o, n int64) bool {
+	pt("atomic.cas", unsafe.Pointer(x), true)
+	return x.v.CompareAndSwap(o, n)
+}
+
+type Uint32 struct{ v atomic.Uint32 }
+
+//go:norace
+func (x *Uint32) Load() uint32 { pt("atomic.load", unsafe.Pointer(x), false); return x.v.Load() }
+
+//go:norace
+func (x *Uint32) Store(v uint32) { pt("atomic.store", unsafe.Pointer(x), true); x.v.Store(v) }
+
+//go:norace
+func (x *Uint32) Swap(v uint32) uint32 {
+	pt("atomic.swap", unsafe.Pointer(x), true)
+	return x.v.Swap(v)
+}
+
+//go:norace
+func (x *Uint32) Add(d uint32) uint32 { pt("atomic.add", unsafe.Pointer(x), true); return x.v.Add(d) }
+
+//go:norace
+func (x *Uint32) CompareAndSwap(o, n uint32) bool {
+	pt("atomic.cas", unsafe.Pointer(x), true)
+	return x.v.CompareAndSwap(o, n)
+}
+
 type Uint64 struct{ v atomic.Uint64 }
 
 //go:norace
@@ -24,15 +107,86 @@ func (x *Uint64) Load() uint64 { pt("atomic.load", unsafe.Pointer(x), false); re
 func (x *Uint64) Store(v uint64) { pt("atomic.store", unsafe.Pointer(x), true); x.v.Store(v) }
 
 //go:norace
-func (x *Uint64) Add(d uint64) uint64 {
-	pt("atomic.add", unsafe.Pointer(x), true)
-	return x.v.Add(d)
+func (x *Uint64) Swap(v uint64) uint64 {
+	pt("atomic.swap", unsafe.Pointer(x), true)
+	return x.v.Swap(v)
 }
+
+//go:norace
+func (x *Uint64) Add(d uint64) uint64 { pt("atomic.add", unsafe.Pointer(x), true); return x.v.Add(d) }
 
 //go:norace
 func (x *Uint64) CompareAndSwap(o, n uint64) bool {
 	pt("atomic.cas", unsafe.Pointer(x), true)
 	return x.v.CompareAndSwap(o, n)
+}
+
+type Uintptr struct{ v atomic.Uintptr }
+
+//go:norace
+func (x *Uintptr) Load() uintptr { pt("atomic.load", unsafe.Pointer(x), false); return x.v.Load() }
+
+//go:norace
+func (x *Uintptr) Store(v uintptr) { pt("atomic.store", unsafe.Pointer(x), true); x.v.Store(v) }
+
+//go:norace
+func (x *Uintptr) Add(d uintptr) uintptr {
+	pt("atomic.add", unsafe.Pointer(x), true)
+	return x.v.Add(d)
+}
+
+//go:norace
+func (x *Uintptr) CompareAndSwap(o, n uintptr) bool {
+	pt("atomic.cas", unsafe.Pointer(x), true)
+	return x.v.CompareAndSwap(o, n)
+}
+
+type Pointer[T any] struct{ v atomic.Pointer[T] }
+
+//go:norace
+func (x *Pointer[T]) Load() *T { pt("atomic.load", unsafe.Pointer(x), false); return x.v.Load() }
+
+//go:norace
+func (x *Pointer[T]) Store(v *T) { pt("atomic.store", unsafe.Pointer(x), true); x.v.Store(v) }
+
+//go:norace
+func (x *Pointer[T]) Swap(v *T) *T { pt("atomic.swap", unsafe.Pointer(x), true); return x.v.Swap(v) }
+
+//go:norace
+func (x *Pointer[T]) CompareAndSwap(o, n *T) bool {
+	pt("atomic.cas", unsafe.Pointer(x), true)
+	return x.v.CompareAndSwap(o, n)
+}
+
+type Value struct{ v atomic.Value }
+
+//go:norace
+func (x *Value) Load() any { pt("atomic.load", unsafe.Pointer(x), false); return x.v.Load() }
+
+//go:norace
+func (x *Value) Store(v any) { pt("atomic.store", unsafe.Pointer(x), true); x.v.Store(v) }
+
+//go:norace
+func (x *Value) Swap(v any) any { pt("atomic.swap", unsafe.Pointer(x), true); return x.v.Swap(v) }
+
+//go:norace
+func (x *Value) CompareAndSwap(o, n any) bool {
+	pt("atomic.cas", unsafe.Pointer(x), true)
+	return x.v.CompareAndSwap(o, n)
+}
+
+// ---- functions
+
+//go:norace
+func LoadInt32(p *int32) int32 {
+	pt("atomic.load", unsafe.Pointer(p), false)
+	return atomic.LoadInt32(p)
+}
+
+//go:norace
+func LoadInt64(p *int64) int64 {
+	pt("atomic.load", unsafe.Pointer(p), false)
+	return atomic.LoadInt64(p)
 }
 
 //go:norace
@@ -42,7 +196,151 @@ func LoadUint32(p *uint32) uint32 {
 }
 
 //go:norace
+func LoadUint64(p *uint64) uint64 {
+	pt("atomic.load", unsafe.Pointer(p), false)
+	return atomic.LoadUint64(p)
+}
+
+//go:norace
+func LoadUintptr(p *uintptr) uintptr {
+	pt("atomic.load", unsafe.Pointer(p), false)
+	return atomic.LoadUintptr(p)
+}
+
+//go:norace
+func LoadPointer(p *unsafe.Pointer) unsafe.Pointer {
+	pt("atomic.load", unsafe.Pointer(p), false)
+	return atomic.LoadPointer(p)
+}
+
+//go:norace
+func StoreInt32(p *int32, v int32) {
+	pt("atomic.store", unsafe.Pointer(p), true)
+	atomic.StoreInt32(p, v)
+}
+
+//go:norace
+func StoreInt64(p *int64, v int64) {
+	pt("atomic.store", unsafe.Pointer(p), true)
+	atomic.StoreInt64(p, v)
+}
+
+//go:norace
 func StoreUint32(p *uint32, v uint32) {
 	pt("atomic.store", unsafe.Pointer(p), true)
 	atomic.StoreUint32(p, v)
+}
+
+//go:norace
+func StoreUint64(p *uint64, v uint64) {
+	pt("atomic.store", unsafe.Pointer(p), true)
+	atomic.StoreUint64(p, v)
+}
+
+//go:norace
+func StoreUintptr(p *uintptr, v uintptr) {
+	pt("atomic.store", unsafe.Pointer(p), true)
+	atomic.StoreUintptr(p, v)
+}
+
+//go:norace
+func StorePointer(p *unsafe.Pointer, v unsafe.Pointer) {
+	pt("atomic.store", unsafe.Pointer(p), true)
+	atomic.StorePointer(p, v)
+}
+
+//go:norace
+func AddInt32(p *int32, d int32) int32 {
+	pt("atomic.add", unsafe.Pointer(p), true)
+	return atomic.AddInt32(p, d)
+}
+
+//go:norace
+func AddInt64(p *int64, d int64) int64 {
+	pt("atomic.add", unsafe.Pointer(p), true)
+	return atomic.AddInt64(p, d)
+}
+
+//go:norace
+func AddUint32(p *uint32, d uint32) uint32 {
+	pt("atomic.add", unsafe.Pointer(p), true)
+	return atomic.AddUint32(p, d)
+}
+
+//go:norace
+func AddUint64(p *uint64, d uint64) uint64 {
+	pt("atomic.add", unsafe.Pointer(p), true)
+	return atomic.AddUint64(p, d)
+}
+
+//go:norace
+func AddUintptr(p *uintptr, d uintptr) uintptr {
+	pt("atomic.add", unsafe.Pointer(p), true)
+	return atomic.AddUintptr(p, d)
+}
+
+//go:norace
+func SwapInt32(p *int32, v int32) int32 {
+	pt("atomic.swap", unsafe.Pointer(p), true)
+	return atomic.SwapInt32(p, v)
+}
+
+//go:norace
+func SwapInt64(p *int64, v int64) int64 {
+	pt("atomic.swap", unsafe.Pointer(p), true)
+	return atomic.SwapInt64(p, v)
+}
+
+//go:norace
+func SwapUint32(p *uint32, v uint32) uint32 {
+	pt("atomic.swap", unsafe.Pointer(p), true)
+	return atomic.SwapUint32(p, v)
+}
+
+//go:norace
+func SwapUint64(p *uint64, v uint64) uint64 {
+	pt("atomic.swap", unsafe.Pointer(p), true)
+	return atomic.SwapUint64(p, v)
+}
+
+//go:norace
+func SwapPointer(p *unsafe.Pointer, v unsafe.Pointer) unsafe.Pointer {
+	pt("atomic.swap", unsafe.Pointer(p), true)
+	return atomic.SwapPointer(p, v)
+}
+
+//go:norace
+func CompareAndSwapInt32(p *int32, o, n int32) bool {
+	pt("atomic.cas", unsafe.Pointer(p), true)
+	return atomic.CompareAndSwapInt32(p, o, n)
+}
+
+//go:norace
+func CompareAndSwapInt64(p *int64, o, n int64) bool {
+	pt("atomic.cas", unsafe.Pointer(p), true)
+	return atomic.CompareAndSwapInt64(p, o, n)
+}
+
+//go:norace
+func CompareAndSwapUint32(p *uint32, o, n uint32) bool {
+	pt("atomic.cas", unsafe.Pointer(p), true)
+	return atomic.CompareAndSwapUint32(p, o, n)
+}
+
+//go:norace
+func CompareAndSwapUint64(p *uint64, o, n uint64) bool {
+	pt("atomic.cas", unsafe.Pointer(p), true)
+	return atomic.CompareAndSwapUint64(p, o, n)
+}
+
+//go:norace
+func CompareAndSwapUintptr(p *uintptr, o, n uintptr) bool {
+	pt("atomic.cas", unsafe.Pointer(p), true)
+	return atomic.CompareAndSwapUintptr(p, o, n)
+}
+
+//go:norace
+func CompareAndSwapPointer(p *unsafe.Pointer, o, n unsafe.Pointer) bool {
+	pt("atomic.cas", unsafe.Pointer(p), true)
+	return atomic.CompareAndSwapPointer(p, o, n)
 }
